@@ -8,17 +8,17 @@ import pyccolo as pyc
 FNAME = "<sandbox-p>"
 
 
-def make_third_party(kind, log):
+def make_third_party(kind, log, tag=""):
     """kind: 'self' (returns itself), 'local' (returns a distinct local function), 'selective' (declines frames named g*)"""
     def local(frame, evt, arg):
         if frame.f_code.co_filename == FNAME:
-            log.append(["L", evt, frame.f_code.co_name, frame.f_lineno])
+            log.append([tag + "L", evt, frame.f_code.co_name, frame.f_lineno])
         return local
 
     def glob(frame, evt, arg):
         if frame.f_code.co_filename != FNAME:
             return None
-        log.append(["G", evt, frame.f_code.co_name, frame.f_lineno])
+        log.append([tag + "G", evt, frame.f_code.co_name, frame.f_lineno])
         if kind == "self":
             return glob
         if kind == "local":
@@ -46,6 +46,15 @@ def run_program(src, env_extra):
     return out
 
 
+def hist_env(case, log):
+    third = {"A": make_third_party(case["third_party"], log, "A"), "B": make_third_party("self", log, "B")}
+    tags = {id(v): k for k, v in third.items()}
+
+    def tp_step(what):
+        sys.settrace(None if what == "off" else third[what])
+    return third, tp_step, (lambda f: None if f is None else tags.get(id(f), "other"))
+
+
 def plain_run(case):
     """no pyccolo: (a) a recorder for all four event kinds, (b) the third-party tracer alone"""
     rec = []
@@ -55,15 +64,24 @@ def plain_run(case):
             return None
         rec.append([evt, frame.f_code.co_name, frame.f_lineno])
         return recorder
-    mid = bool(case["third_party"]) and case["install"] == "mid"
+    mid = bool(case["third_party"]) and case["install"] in ("mid", "hist")
     sys.settrace(recorder)
     try:
-        out = run_program(case["src_mid"] if mid else case["src"], {"install": (lambda: None)} if mid else {})
+        out = run_program(case["src_mid"] if mid else case["src"], {"install": (lambda: None), "tp_step": (lambda w: None)} if mid else {})
     finally:
         sys.settrace(None)
     tp_log = []
     tp_after = None
-    if case["third_party"]:
+    if case["third_party"] and case["install"] == "hist":
+        third, tp_step, tag_of = hist_env(case, tp_log)
+        if case["pre"]:
+            sys.settrace(third[case["pre"]])
+        try:
+            run_program(case["src_mid"], {"tp_step": tp_step})
+            tp_after = tag_of(sys.gettrace())
+        finally:
+            sys.settrace(None)
+    elif case["third_party"]:
         tp = make_third_party(case["third_party"], tp_log)
         env = {}
         if case["install"] == "pre":
@@ -92,17 +110,23 @@ def traced_run(case, ci):
     cls = type("S%d" % ci, (pyc.BaseTracer,), attrs)
     t = cls.instance()
     tp_log = []
-    tp = make_third_party(case["third_party"], tp_log) if case["third_party"] else None
+    hist = bool(case["third_party"]) and case["install"] == "hist"
+    tp = make_third_party(case["third_party"], tp_log) if case["third_party"] and not hist else None
     env = {}
+    if hist:
+        third, tp_step, tag_of = hist_env(case, tp_log)
+        env["tp_step"] = tp_step
+        if case["pre"]:
+            sys.settrace(third[case["pre"]])
     if tp is not None and case["install"] == "pre":
         sys.settrace(tp)
     if tp is not None and case["install"] == "mid":
         env["install"] = lambda: sys.settrace(tp)
     try:
         with t.tracing_enabled():
-            out = run_program(case["src_mid"] if (tp is not None and case["install"] == "mid") else case["src"], env)
+            out = run_program(case["src_mid"] if hist or (tp is not None and case["install"] == "mid") else case["src"], env)
         after = sys.gettrace()
-        tp_after = (after is tp) if tp is not None else (after is None)
+        tp_after = tag_of(after) if hist else ((after is tp) if tp is not None else (after is None))
     finally:
         sys.settrace(None)
         cls.clear_instance()
